@@ -1,6 +1,6 @@
 SPECIFICATION SpecFrom
 CONSTANTS
-  MaxNodes = 4
+  MaxNodes = 8
   Keys = {1, 2}
   Leafs = {101}
   Shapes = {200, 211, 220}
